@@ -181,6 +181,16 @@ CHECKS["C10"] = dict(
     parts=[rapid_part("rapid", "compose", "TestC10", 1500, 12000, race=True, replay_test="TestC10Replay", replay_reps=5)],
 )
 
+CHECKS["C11"] = dict(
+    technique="property-based testing (rapid) with a mutual-exclusion monitor and read-yield-write counters inside every state callback, gated parallel nodes, concurrent runs, under the race detector; reference model for values and invocation counts; interrupt/resume histories with a StateModifier",
+    level_text="Part A: generated stateful graphs (all modes; nested graphs with own state and without, the latter working on the enclosing state; value and stream pre/post handlers; ProcessState inside bodies) whose top-level lambdas are gated so that state accesses of parallel nodes overlap, 1-3 concurrent runs of the same compiled object. Every state callback runs inside a monitor and does read - yield - write on a counter. Oracle: the monitor never sees two callbacks inside at once; every counter equals the number of invocations predicted by the reference model (no lost update); per node the state log repeats pre -> body -> post; the output and executions equal the reference with the handlers' value transformations applied (what they return is what flows); the state generator ran once per run plus once per execution of a nested stateful graph; no state object is seen by two runs. Part B: the interrupt/resume histories of C05 with a StateModifier on every resume: state counters at the end equal the uninterrupted ones plus exactly one modifier edit per resume. Built with -race.",
+    level_note="Overlap of state accesses is produced by gates and observed (label gated-bodies-overlapped); interleavings inside the framework are the Go scheduler's. Nested stateful graphs executed more than once per run are checked through the generator count and the monitor only (their earlier state objects are gone).",
+    rule="rapid draws a stateful GraphSpec, paradigm, release order, yield count and number of concurrent runs; non-trivial = >= 2 gated bodies observed waiting at once or a nested stateful graph; distinct = FNV-1a of case JSON",
+    assumptions=GRAPH_ASSUME,
+    parts=[rapid_part("rapid", "compose", "TestC11", 1500, 12000, race=True, replay_test="TestC11Replay", replay_reps=5),
+           rapid_part("resume", "compose", "TestC11Resume", 800, 6000, race=False, replay_test="TestC11ResumeReplay", replay_reps=10)],
+)
+
 # properties not claimed (with reason); everything else not in CHECKS is "not built yet"
 NOT_APPLICABLE = {}
 
